@@ -235,6 +235,7 @@ class Impl:
         extra = "".join(" samples%d=[%s]" % (i, smp(fn)) for i, fn in ((2, f2), (3, f3)) if fn is not None and self.o[fn].list_of_points)
         return "samples=[%s] init=[%s] metrics=[%s]%s" % (sm, ini, me, extra)
     def op_spec_pg(self, f, f2, f3, *a): return self._spec(f, f2, f3)
+    def op_spec_gfsc(self, f, *a): return self._spec(f)
     def op_spec_gdc(self, f, *a): return self._spec(f)
     def op_spec_subg(self, f, *a): return self._spec(f)
     def op_note(self, *a): return "ok"
@@ -924,6 +925,7 @@ def example_program(c):
     fr = lambda v: showrat(Fr(v)) if isinstance(v, int) else showrat(Fr(float(v)))
     if c["func"] == "wc_gradient_descent_contraction": spec = ["spec.gdc f0 %s %d" % (fr(c["args"]["gamma"]), c["args"]["n"])]
     if c["func"] == "wc_proximal_gradient": spec = ["spec.pg f0 f1 f2 %s %d" % (fr(c["args"]["gamma"]), c["args"]["n"])]
+    if c["func"] == "wc_gradient_flow_strongly_convex": spec = ["spec.gfsc f0"]
     if c["func"] == "wc_subgradient_method": spec = ["spec.subg f0 %s %d" % (fr(c["args"]["gamma"]), c["args"]["n"])]
     return r["lines"] + spec + [head, "solve.collect", "dump.sent", "expect.sent " + hashlib.sha1(r["sent"].encode()).hexdigest()[:20], "dump.counters"]
 
@@ -938,7 +940,10 @@ def gen_methods(seed):
     """the examples whose whole user-level model is specified in Lean (Model/Methods.lean), at parameter values drawn over
     the documented ranges (no solve is involved, so any number of steps is cheap)"""
     rnd = random.Random(seed * 104729 + 11)
-    if seed % 3 == 2:
+    if seed % 8 == 7:
+        c = dict(module="PEPit.examples.continuous_time_models.gradient_flow_strongly_convex", func="wc_gradient_flow_strongly_convex",
+                 args=dict(mu=rnd.choice([0.1, 1, 0.5, 2.5, 0.01])))
+    elif seed % 3 == 2:
         L = rnd.choice([1, 2, 0.5, 1.7, 4]); mu = rnd.choice([0.1, 0.05, 0.25, 0.5]) * L
         gamma = rnd.choice([1 / L, 0.5 / L, 1.5 / L, 2 / (L + mu), 0.3, 1, 0.25])
         c = dict(module="PEPit.examples.composite_convex_minimization.proximal_gradient", func="wc_proximal_gradient",
